@@ -407,7 +407,7 @@ var natives = map[string]extFn{
 	"(*sync.Mutex).Unlock": func(e *Engine, _ *frame, _ *ssa.Function, a []value) value { e.raceUnlock(a[0].(*value)); return nil },
 	"(*sync.RWMutex).Lock": func(e *Engine, _ *frame, _ *ssa.Function, a []value) value { e.raceLock(a[0].(*value)); return nil },
 	"(*sync.RWMutex).Unlock": func(e *Engine, _ *frame, _ *ssa.Function, a []value) value { e.raceUnlock(a[0].(*value)); return nil },
-	"(*sync.RWMutex).RLock": func(e *Engine, _ *frame, _ *ssa.Function, a []value) value { e.raceLock(a[0].(*value)); return nil },
+	"(*sync.RWMutex).RLock": func(e *Engine, _ *frame, _ *ssa.Function, a []value) value { e.raceLockMode(a[0].(*value), true); return nil },
 	"(*sync.RWMutex).RUnlock": func(e *Engine, _ *frame, _ *ssa.Function, a []value) value { e.raceUnlock(a[0].(*value)); return nil },
 	"errors.New": func(e *Engine, _ *frame, fn *ssa.Function, a []value) value { return mkError(a[0].(string)) },
 	"strings.Join": func(e *Engine, _ *frame, fn *ssa.Function, a []value) value {
